@@ -1809,6 +1809,7 @@ const W_STD: W = W { alloc: 10, free: 6, reuse: 2, bulk: 0, foreign: 0, check: 1
 fn ops(size: BoxedStrategy<usize>, max_len: usize, w: W) -> BoxedStrategy<Vec<Op>> {
     let s2 = size.clone();
     let s3 = size.clone();
+    let s4 = size.clone();
     let op = prop_oneof![
         w.alloc => (size, 0u8..13, any::<u8>()).prop_map(|(size, al, how)| Op::Alloc { size, al, how }),
         w.free => (any::<u16>(), any::<u8>()).prop_map(|(i, how)| Op::Free { i, how }),
@@ -1820,7 +1821,25 @@ fn ops(size: BoxedStrategy<usize>, max_len: usize, w: W) -> BoxedStrategy<Vec<Op
         w.scope => Just(Op::ScopeOpen),
         w.scope => Just(Op::ScopeClose),
     ];
-    proptest::collection::vec(op, 0..=max_len).boxed()
+    // one history in eight starts with a burst: n blocks of ONE size allocated, all n released
+    // (oldest first or newest first) with nothing in between, then n allocated again -- fills
+    // and overflows whatever per-size cache / free list the allocator keeps, then drains it
+    let burst = (s4, 5usize..=10, any::<bool>(), any::<u8>()).prop_map(|(size, n, oldest_first, how)| {
+        let mut v: Vec<Op> = (0..n).map(|_| Op::Alloc { size, al: 0, how }).collect();
+        v.extend((0..n).map(|_| Op::Free { i: if oldest_first { 0 } else { u16::MAX }, how }));
+        v.extend((0..n).map(|_| Op::Alloc { size, al: 0, how }));
+        v.push(Op::Check);
+        v
+    });
+    let plain = proptest::collection::vec(op, 0..=max_len);
+    prop_oneof![
+        7 => plain.clone(),
+        1 => (burst, plain).prop_map(|(mut b, rest)| {
+            b.extend(rest);
+            b
+        }),
+    ]
+    .boxed()
 }
 
 fn case<S: Strategy<Value = Cfg> + 'static>(cfg: S, f: impl Fn(&Cfg) -> BoxedStrategy<Vec<Op>> + 'static) -> BoxedStrategy<Case> {
